@@ -210,3 +210,10 @@ Theorem C17_source_codec_params : forall (mode : Z) (hm : N) (rot : Z), (- 2 ^ 3
   match validate_params mode hm rot with Ok (c, w) => ((c, w), false) | Err _ => ((0, 0), true) end%Z.
 Proof. exact xl_validateLowEntropyCodecParams_eq_model. Qed.
 Print Assumptions C17_source_codec_params.
+
+Theorem C17_source_chunk_mask : forall (init : N) (rot ci : Z),
+  init < W64 -> (- 2 ^ 31 <= rot < 2 ^ 31)%Z -> (- 2 ^ 63 <= ci < 2 ^ 63)%Z ->
+  xl_protocol_lowEntropyChunkMask (Z.of_N init) rot ci =
+  match chunk_mask init rot ci with Ok v => (Z.of_N v, false) | Err _ => (0%Z, true) end.
+Proof. exact xl_lowEntropyChunkMask_eq_model. Qed.
+Print Assumptions C17_source_chunk_mask.
